@@ -64,6 +64,14 @@ func c12Extra(scn *world.Scenario, path []world.Op, counts map[string]int) (int,
 		counts["C12.skipped-release-awaiting-confirmation"]++
 		return 0, distinct, nil
 	}
+	// histories on which a recorded (known, unrepaired) defect of C03 has already corrupted the OLD core's books are
+	// not crash points at which "the same totals" is meaningful: counted and skipped
+	for _, tag := range []string{"ctx:ph-timeout-during-swap", "ctx:real-released-during-swap", "ctx:ask-on-failing-app", "ctx:ph-timeout-real-allocation-not-running"} {
+		if oldMem[tag] != "" {
+			counts["C12.skipped-old-core-corrupted-by-known-finding"]++
+			return 0, distinct, nil
+		}
+	}
 	for _, a := range old.Apps {
 		for k, ask := range a.Asks {
 			if ask.Allocated && ask.Release != "" {
